@@ -292,3 +292,11 @@ package estargz
 //@   loop 3 invariant layerFiles != nil
 //@   assert[C04] before "wg.Wait()" : cap(errCh) >= len(tarParts)
 //@   assume before "tocAndFooter, tocDgst, err := closeWithCombine(writers...)" : wsOK(writers) && (forall j int :: 0 <= j && j < len(payloads) ==> payloads[j] != nil)
+
+// decompressBlob: a compressed input is decompressed by draining its decompressor to the end (io.Copy until EOF), not up
+// to a length taken from somewhere else -- a gzip input may consist of several members (an eStargz blob always does).
+//@ func decompressBlob
+//@   props C03
+//@   requires org != nil && tmp != nil
+//@   ensures[C03] result1 == nil && dgR != nil ==> drained == payload(dgR)
+//@   ensures[C03] result1 == nil && dzR != nil ==> drained == ref(dzR)
